@@ -42,13 +42,19 @@ func parseCase(r *hx.Run, spec string, raw []byte, onlyCrash bool, tags ...strin
 		got := q.(*pb.QuoteV4)
 		if !proto.Equal(got, want) {
 			fail = "a parsed field is not the corresponding little-endian slice of the input: got " + dumpQuote(got) + " want " + dumpQuote(want)
-		} else if back, e2 := abi.QuoteToAbiBytes(got); e2 != nil || !bytes.Equal(back, raw) {
+		} else if back, e2 := safeSerialise(got); e2 != nil && strings.HasPrefix(e2.Error(), "panic") {
+			fail = "crash in abi.QuoteToAbiBytes on the quote the parser just returned: " + e2.Error()
+		} else if e2 != nil || !bytes.Equal(back, raw) {
 			fail = "serialising the parsed quote does not reproduce the input"
 		} else if stale := c09Kept.checkAndKeep(back); stale != "" {
 			fail = stale
 		} else {
-			h, _ := abi.HeaderToAbiBytes(got.Header)
-			t, _ := abi.TdQuoteBodyToAbiBytes(got.TdQuoteBody)
+			var h, t []byte
+			hx.Guard(func() string {
+				h, _ = abi.HeaderToAbiBytes(got.Header)
+				t, _ = abi.TdQuoteBodyToAbiBytes(got.TdQuoteBody)
+				return ""
+			})
 			if !bytes.Equal(append(h, t...), raw[:632]) {
 				fail = "re-serialised header||body is not bytes 0-631 of the input"
 			}
@@ -61,7 +67,7 @@ func parseCase(r *hx.Run, spec string, raw []byte, onlyCrash bool, tags ...strin
 				for i := range scratch {
 					scratch[i] ^= 0xa5
 				}
-				if back, e3 := abi.QuoteToAbiBytes(q2); e3 != nil || !bytes.Equal(back, raw) {
+				if back, e3 := safeSerialise(q2.(*pb.QuoteV4)); e3 != nil || !bytes.Equal(back, raw) {
 					fail = "after the caller reused its input buffer the parsed quote no longer serialises to the bytes it was parsed from (a field shares memory with the input)"
 				}
 			}
@@ -291,6 +297,14 @@ func c09(r *hx.Run, onlyCrash bool) {
 		raw := synthQuote(rng, o)
 		parseCase(r, hx.Hex(raw), raw, onlyCrash, "synthetic")
 	}
+	// the three largest authentication-data lengths the 16-bit size field can express, parsed and serialised again
+	for _, n := range []int{65533, 65534, 65535} {
+		raw := synthQuote(rng, synthOpts{n, 40, 2})
+		parseCase(r, fmt.Sprintf("@r:%d", tab.def(raw)), raw, onlyCrash, "auth-extreme")
+		if q, ok := indepParse(raw); ok {
+			serCase(r, q, onlyCrash, "msg:auth-extreme")
+		}
+	}
 	c09messages(r, rng, bases[0].raw, bases[1].raw, onlyCrash)
 	c09Shared(r, [][]byte{bases[0].raw, bases[1].raw, bases[2].raw, bases[3].raw})
 	r.Note("bases", len(bases))
@@ -379,7 +393,7 @@ func serCase(r *hx.Run, q *pb.QuoteV4, onlyCrash bool, tags ...string) {
 		} else if serErr == nil {
 			// whatever was serialised must never parse into a *different* quote
 			if back, e := safeParse(out); e == nil && !proto.Equal(back, q) {
-				if bb, e2 := abi.QuoteToAbiBytes(back); e2 != nil || !bytes.Equal(bb, out) {
+				if bb, e2 := safeSerialise(back); e2 != nil || !bytes.Equal(bb, out) {
 					fail = "serialised bytes parse into a quote that does not serialise back to them"
 				}
 			}
